@@ -161,6 +161,17 @@ Definition istep (zero : val) (st : istate) (o : op) : option ires :=
                 of_cat_out (drain (S (it_size (snd r))) (fst r) (snd r)) (fun ps => Some (fst r, cs ++ [Some (TArr (it_vals (snd r)))], RNew, Some (OIter VNil (assoc_vals ps) 0))))
     | None => None
     end
+  | ARemoveValuesBad o ks =>
+    (* the keys before the unhashable one are removed one by one from BOTH structures; no object is created *)
+    match cat_at cs o with
+    | Some c => of_cat_out (c_remove_values zero keq h c ks) (fun r => Some (h, put_cat cs o (snd r), RPartial, None))
+    | None => None
+    end
+  | FromMapV CCatalog src opairs =>
+    match get q src with
+    | OGoMap m => if pairs_perm m opairs then of_cat_out (c_from_map keq h opairs) (new_cat cs) else None
+    | _ => None
+    end
   | AssocSet sl i v =>
     (* the caller writes through the association OBJECT at position i of a Go array handed out by AsArray:
        the object is a heap cell, so every structure that holds the same pointer would show the new value *)
@@ -209,10 +220,10 @@ Definition caller_write (cs : list (option tracked)) (o : op) : list (option tra
 (* a call that the two-structure machine would answer although the receiver is a Catalog it should track *)
 Definition catalog_op_unhandled (st : istate) (o : op) : bool :=
   match o with
-  | AGet r _ | ASet r _ _ | AKeys r _ | AGetValues r _ | ARemove r _ | ARemoveValues r _ | RemoveAll r
+  | AGet r _ | ASet r _ _ | AKeys r _ | AGetValues r _ | ARemove r _ | ARemoveValues r _ | ARemoveValuesBad r _ | RemoveAll r
   | SortValues r | SortWith r _ | ReverseValues r | ShuffleValues r _ | GetSize r | IsEmpty r | AsArray r _ | GetIterator r _ =>
     match get (i_obs st) r with OCat _ => true | _ => false end
-  | MakeEmpty CCatalog | FromArray CCatalog _ | FromSeq CCatalog _ _ | FromMap CCatalog _ _ | Merge _ _ | Extract _ _ => true
+  | MakeEmpty CCatalog | FromArray CCatalog _ | FromSeq CCatalog _ _ | FromMap CCatalog _ _ | FromMapV CCatalog _ _ | Merge _ _ | Extract _ _ => true
   | _ => false
   end.
 
